@@ -79,10 +79,14 @@ package storage
 
 //@ func (n *btreeNode) insertInternalCell(offset uint32, key uint32, fileOffset uint64) error
 //@   props C01 C11
-//@   trusted
-//@   requires !n.isLeaf && slotsOK(n) && offset <= cnt(n) && cnt(n) < 65535 && len(n.internalCells) < 65535
+//@   requires !n.isLeaf && slotsOK(n) && offset < cnt(n) && cnt(n) < 65535 && len(n.internalCells) < 65535
 //@   modifies n.offsets, n.internalCells, elems(n.offsets), elems(n.internalCells), all(internalCell.fileOffset)
-//@   ensures result == nil && cnt(n) == old(cnt(n)) + 1 && slotsOK(n)
+//@   ensures[count] result == nil && cnt(n) == old(cnt(n)) + 1 && len(n.internalCells) == old(len(n.internalCells)) + 1 && slotsOK(n)
+//@   ensures[before] forall i int :: 0 <= i && i < offset ==> ic(n,i) == old(ic(n,i))
+//@   ensures[after] forall i int :: offset < i && i < cnt(n) ==> ic(n,i) == old(ic(n,i-1))
+//@   ensures[new] fresh(ic(n,offset)) && ic(n,offset).key == key
+//@   ensures[children; C01 C11] ic(n,offset).fileOffset == old(ic(n,offset).fileOffset) && ic(n,offset+1).fileOffset == fileOffset
+//@   ensures[children.kept] forall c *internalCell :: c != old(ic(n,offset)) && !fresh(c) ==> c.fileOffset == old(c.fileOffset)
 
 //@ func (n *btreeNode) insertLeafCell(offset uint32, key uint32, value []byte) error
 //@   props C01 C08 C11 C14
@@ -151,13 +155,13 @@ package storage
 //@              lc(newPg,j).valueSize == old(lc(n, cnt(n)/2 + j).valueSize)
 //@   ensures[leaf.deleted; C01] n.isLeaf ==> forall j int :: 0 <= j && j < cnt(newPg) ==>
 //@              lc(newPg,j).deleted == old(lc(n, cnt(n)/2 + j).deleted)
-//@   ensures[leaf.sep; C11] n.isLeaf ==> result0 == old(lc(n, cnt(n)/2).key)
+//@   ensures[leaf.sep; C01 C11] n.isLeaf ==> result0 == old(lc(n, cnt(n)/2).key)
 //@   ensures[int.count] !n.isLeaf ==> cnt(newPg) == old(cnt(n)) - old(cnt(n))/2 - 1
 //@   ensures[int.kept] !n.isLeaf ==> forall i int :: 0 <= i && i < cnt(n) ==> ic(n,i) == old(ic(n,i))
 //@   ensures[int.content; C01 C11] !n.isLeaf ==> forall j int :: 0 <= j && j < cnt(newPg) ==>
 //@              ic(newPg,j).key == old(ic(n, cnt(n)/2 + 1 + j).key) && ic(newPg,j).fileOffset == old(ic(n, cnt(n)/2 + 1 + j).fileOffset)
-//@   ensures[int.sep; C11] !n.isLeaf ==> result0 == old(ic(n, cnt(n)/2).key) && n.rightOffset == old(ic(n, cnt(n)/2).fileOffset)
-//@   ensures[int.right; C11] !n.isLeaf ==> newPg.rightOffset == old(n.rightOffset)
+//@   ensures[int.sep; C01 C11] !n.isLeaf ==> result0 == old(ic(n, cnt(n)/2).key) && n.rightOffset == old(ic(n, cnt(n)/2).fileOffset)
+//@   ensures[int.right; C01 C11] !n.isLeaf ==> newPg.rightOffset == old(n.rightOffset)
 //@   ensures[leaf.right] n.isLeaf ==> n.rightOffset == old(n.rightOffset) && newPg.rightOffset == old(newPg.rightOffset)
 //@   ensures[arrays.fresh] (newPg.offsets == nil || fresh(newPg.offsets)) && (newPg.leafCells == nil || fresh(newPg.leafCells)) && (newPg.internalCells == nil || fresh(newPg.internalCells))
 //@   ensures[arrays.kept] base(n.offsets) == old(base(n.offsets)) && n.leafCells == old(n.leafCells) && n.internalCells == old(n.internalCells)
@@ -641,7 +645,7 @@ package storage
 //@ spec func atSz(i int) int { atNull(i) ? 1 : (atKind(i) == TypeInt ? 5 : (atKind(i) == TypeBigInt ? 9 : (atKind(i) == TypeBoolean ? 2 : 5 + len(atStr(i))))) }
 //@ axiom atPos0: atPos(0) == 0
 //@ axiom atPosS: forall i int :: 0 <= i ==> atPos(i+1) == atPos(i) + atSz(i)
-//@ axiom atPosMono: forall i, j int :: 0 <= i && i < j ==> atPos(i) + atSz(i) <= atPos(j)
+//@ lemma[C08] atPosMono by induction on j: forall i, j int :: 0 <= i && i < j ==> atPos(i) + atSz(i) <= atPos(j)
 //@ spec func le32s(b *bytes.Buffer, p int) int { le32(b,p) >= 2147483648 ? le32(b,p) - 4294967296 : le32(b,p) }
 //@ spec func le64s(b *bytes.Buffer, p int) int { le64(b,p) >= 9223372036854775808 ? le64(b,p) - 18446744073709551616 : le64(b,p) }
 //@ spec func colVal(r *Tuple, i int) any { r.Vals[r.Relation.Fields[i].Name] }
@@ -1082,7 +1086,7 @@ package storage
 //@ axiom alPos0: alPos(0) == 0
 //@ axiom alPosS: forall i int :: 0 <= i ==> alPos(i+1) == alPos(i) + 9 + alSize(i)
 //@ axiom alSizeNN: forall i int :: alSize(i) >= 0
-//@ axiom alPosMono: forall i, j int :: 0 <= i && i < j ==> alPos(i) + 9 + alSize(i) <= alPos(j)
+//@ lemma[C12] alPosMono by induction on j: forall i, j int :: 0 <= i && i < j ==> alPos(i) + 9 + alSize(i) <= alPos(j)
 //@ spec func alFree() int { 4096 - 41 - 2*alCnt() - alPos(alCnt()) }
 //@ spec pred alWF() { 0 <= alCnt() && alCnt() <= maxLeaf &&
 //@        (forall i int :: 0 <= i && i < alCnt() ==> alOff(i) < alCnt() && alSize(i) <= maxValue) &&
